@@ -96,6 +96,7 @@ func runC02(c *Ctx) {
 	checkResponsesAreNeverNil(c, "R15")
 	checkReceivePathDoesNotClose(c, "R16")
 	checkReplyEncodersDoNotRefuse(c, "R17")
+	checkRepliesAreFresh(c, "R18")
 	pos := func(in ssa.Instruction) string { return p.Pos(in.Pos()) }
 	handle := p.Func("handlePacket")
 	worker := p.Func("(*RequestServer).packetWorker")
